@@ -236,7 +236,8 @@ def gen_pass_rule(rng, t, stage, direction, literal_only=True, biased_nonconsumi
     if rng.random() < 0.15:
         items.append("`")
     for _ in range(nb):
-        items.append(lit(test_chars, rng.randint(1, 2)))
+        # (now and then a long context in front of the brackets: what a `*` action moves then is long too - F38)
+        items.append(lit(test_chars, rng.choice([1, 1, 2, 2, 2, 4, 6])))
     if brackets:
         items.append("[")
     for _ in range(ni):
@@ -254,8 +255,8 @@ def gen_pass_rule(rng, t, stage, direction, literal_only=True, biased_nonconsumi
     ar = rng.random()
     if ar < 0.2:
         action = "?"
-    elif ar < 0.35:
-        action = "*"
+    elif ar < 0.35 or (brackets and nb and ar < 0.6 and "-" in items[1 if items[0] == "`" else 0]):
+        action = "*"                   # (more often behind a long context: the copy then moves a long block)
     elif ar < 0.45 and brackets:
         action = lit(act_chars, 1) + "*"
     else:
